@@ -220,7 +220,8 @@ func (si *srcImporter) checkTarget(rel string) ([]*ast.File, *types.Info, string
 	if len(files) == 0 {
 		return nil, nil, ""
 	}
-	info := &types.Info{Types: map[ast.Expr]types.TypeAndValue{}, Uses: map[*ast.Ident]types.Object{}, Defs: map[*ast.Ident]types.Object{}}
+	info := &types.Info{Types: map[ast.Expr]types.TypeAndValue{}, Uses: map[*ast.Ident]types.Object{}, Defs: map[*ast.Ident]types.Object{},
+		Selections: map[*ast.SelectorExpr]*types.Selection{}}
 	conf := types.Config{Importer: si, FakeImportC: true, Error: func(error) {}}
 	path := si.modpath + "/" + filepath.ToSlash(rel)
 	p, _ := conf.Check(path, si.fset, files, info)
